@@ -192,6 +192,8 @@ pub struct Flow {
     /// checks (by index) after which the committed per-app records are not judged: their writes were made to
     /// fail on purpose (set by the caller, never by the analysis)
     pub skip_commit_judgement_after_checks: Vec<usize>,
+    /// the store was made to fail commits on purpose: what it holds at quiescent points is not judged (set by the caller)
+    pub skip_all_commit_judgement: bool,
 }
 
 pub fn retry_after(headers: &[(String, Vec<u8>)]) -> RetryAfter {
